@@ -395,6 +395,8 @@ def run(ctx):
 
 _P = 'billiard/pool.py'
 MUTANTS = [
+    ('worker_pids-answers-empty-when-owned', 'billiard/pool.py', '        return [self._worker_pid] if self._worker_pid else []\n', '        return [] if self._worker_pid else [self._worker_pid]\n', 'R04.13'),
+    ('imap-owners-not-answered', 'billiard/pool.py', '    def worker_pids(self):\n        return self._worker_pids\n', '    def worker_pids(self):\n        return []\n', 'R04.13'),
     ('owner-record-cleared-by-part-index', _P, "                self._value[i * self._chunksize:(i + 1) * self._chunksize] = result\n",
      "                self._value[i * self._chunksize:(i + 1) * self._chunksize] = result\n                self._worker_pid[i] = None\n", 'R04.9'),
     ('status-name-lookup-raises-something-else', 'billiard/common.py', "            return 'signal {0} ({1})'.format(-status, SIGMAP[-status])\n",
